@@ -373,6 +373,14 @@ def c10(case, obs, raised, obs_nofail=None):
                 bad.append((i, 'the run with failing user code differs from the failure-free run: '
                                f'{ {k: (x[k], y[k]) for k in ("out", "timer", "queue", "jobs", "store", "evs") if x[k] != y[k]} }'))
                 break
+    # "the failing job keeps its normal schedule and the scheduler stays armed": a job that reports a next run is queued
+    for i, o in enumerate(obs):
+        if o['out'] == 'Runaway':
+            continue
+        for j, (st, nx) in enumerate(o['jobs']):
+            if st == 'running' and j not in o['queue']:
+                bad.append((i, f'job {j} is running (next run {nx}) but no longer queued: it will never be started'))
+                break
     # a failing trigger must not cause a second execution for the same due time
     for i, o in enumerate(obs):
         seen = {}
